@@ -169,3 +169,34 @@ C14 = simple_check("C14", "c14", "model_checking", shards=1,
     assumptions=["queries that cannot be sent untunnelled at all (raw control characters) have no plain counterpart and are skipped at function level (counted)",
                  "the multipart boundary is random (crypto/rand) and not owned; the oracle never looks at it"],
     trusted=["net/http request serialisation and parsing", "hand-written reference tunnelling encodings in harness/c14"])
+
+
+WIRE_TRUST = ["mc/wire in-memory HTTP exchange", "reflection bridge mc/bind and the call/reply machinery of harness/wire", "resource universe mc/schema/universe_resources.go"]
+
+
+def wire_check(prop, part, level, rule, assumptions=(), gens=("v2", "root"), deadline_q=900, deadline_t=3300, race=False):
+    def fn(sc, tier, replay, t0):
+        universe = "resources-full" if tier == "thorough" else "resources-quick"
+        reports = []
+        gl = list(gens)
+        if replay:
+            doc = json.load(open(replay)).get("replay") or {}
+            gl = [doc.get("gen", "v2")]
+            universe = doc.get("universe", universe)
+        for gen in gl:
+            binary = D.build_with_bindings(sc, gen, "wire", universe, resources=True)
+            env = {"VERIF_UNIVERSE": universe}
+            if replay:
+                p = subprocess.run([binary, "-gen", gen, "-replay", replay], env=dict(D.goenv(), **env))
+                return p.returncode
+            reports += D.run_shards(binary, gen, tier, max(1, D.NCPU // len(gl)), os.path.join(sc.dir, "out"),
+                                    extra_args=["-part", part], env=env,
+                                    deadline=(deadline_t if tier == "thorough" else deadline_q))
+        merged = D.merge_reports(reports)
+        return D.finish(prop, tier, level, merged, t0, rule=rule, assumptions=CODEC_ASSUME[:1] + list(assumptions),
+                        trusted_base=MC_ASSUME + WIRE_TRUST)
+    return fn
+
+
+C02 = wire_check("C02", "C02", "model_checking",
+    rule="bounded-exhaustive enumeration of (resource, method, argument position, value, configuration): every method of every resource of the R-universe (collections keyed by primitives / typerefs / enum / complex key, simple, action set, sub-resources to 3 levels; 11 rest methods, return-entity variants, 2 finders, 5 actions) is called through the generated client over the in-memory wire against the real server with generated mock resources; exactly the corresponding resource method must be invoked with equal keys / parameters / paging / body, and the client must return what the resource returned; states = (config, resource, method), transitions = client calls")
